@@ -13,8 +13,8 @@ import (
 // straight transcription of LIP-0058 computed from (pre-state, header) only — so any two nodes
 // holding equal states compute equal BFT heights for the same header.
 //
-//zz:opt loop=16 merge=~/pkg/collection/ints.Max[uint32],~/pkg/collection/ints.Min[uint32],~/pkg/collection/ints.Min[int]
-//zz:quick L=3 n=2 sets=2 trunc=2 budget=300s
+//zz:opt loop=16 timeout=60000 merge=~/pkg/collection/ints.Max[uint32],~/pkg/collection/ints.Min[uint32],~/pkg/collection/ints.Min[int]
+//zz:quick L=3 n=2 sets=2 trunc=2 budget=400s
 //zz:thorough L=4 n=2 sets=2 trunc=3 budget=40m
 func zzH_C02_step_reference(t *zzT) {
 	L, n := t.Param("L", 3), t.Param("n", 2)
